@@ -63,6 +63,26 @@ CHECKS = {
          'Generated skool/ctl documents with unique word tokens (all sections, groups of 1..6 instructions, braces in every allowed position, tables/lists, widths 40..200 with systematic end-of-line sweeps) go through the real skool2asm.main, skool2html.main and sna2skool.main; TLC checks words in order exactly once at the right instruction/entry, every instruction once with address and operation, and the width rule with its unbreakable-word exception and warning.',
          'HTML is tokenised with html.parser (trusted). Wrap points different from the greedy model are drift. Mixed CR/LF terminators are outside the property (drift).',
          'DESIGN.md §4 C18'),
+ 'C09': ('model_checking',
+         'TLA+ specifications of the Z80 RLE codec (Z80Rle: SpecDecode from the format text, encoder state machine), of the header/chunk field maps (SnapFields) and of bin2sna/snapmod options as a state machine with frame conditions (SnapOps), model-checked; TLC enumerates the RLE string space and looks up the real encoder/decoder, judges whole files written by the real writers, and validates every recorded bin2sna/snapmod step as a SnapOps action',
+         'RLE: every string over {ED,00,01} up to length 9 (10 thorough) x both block forms through the real encoder and every well-formed block over {ED,00,01,02,05} up to length 7 through the real and an independent decoder, enumerated by TLC; long runs through real files; generated machine states x {48K,128K,+2} x three writer routes written as .z80 and .szx and read back by skoolkit and by an independent decoder, header bytes decoded by TLC; random bin2sna/snapmod option sequences (--reg/--state/--poke/--move/--patch incl. bank prefixes and 16K boundaries) validated step by step with the full state diff.',
+         'zlib and CRC-32 are trusted projections; byte-by-byte comparison of decoded 16K banks is done in Python and given to TLC as an equality fact with the first differing offset; registers the caller does not name have no documented default and are not compared across formats.',
+         'DESIGN.md §4 C09'),
+ 'C15': ('model_checking',
+         'TLA+ Png specification (chunk-order automaton with APNG sequence numbers, Pixel(img,x,y) with scale/crop/mask/flip/rotate/flash rules) model-checked for its algebraic sanity; TLC judges the chunk list and every pixel of every frame of PNG files written by the real ImageWriter, the image macros via skool2html, and sna2img',
+         'Tile arrays x all 256 attributes x data/mask patterns x scale x crop classes (aligned, 1..7 px off each side, 1-px, oversize) x mask 0..2 x flip x rotate x tindex/alpha x animation x multi-frame sequences, rendered by ImageWriter.write_image (every specialised encoder and the same frames forced through the generic one), by #UDG/#UDGARRAY/#FONT/#SCR/#FRAMES via skool2html.main and by sna2img.main; TLC checks chunk sequence/CRC facts/APNG numbering and pixel-exactness against Pixel().',
+         'CRC-32, inflate, unfiltering and index unpacking are done by the harness reader (zlib, trusted); default [Colours]; flip is applied before rotate (documentation silent on the order).',
+         'DESIGN.md §4 C15'),
+ 'C16': ('model_checking',
+         'TLA+ Site specification (files, element ids, links; WriteFile/CopyResource actions; NoDangling, FragmentExists, WrittenOnce, EntryAnchorsUnique, expected file set) model-checked on small abstract sites; every real skool2html run is recorded as a trace of file writes/copies and replayed by TLC as Site actions with the invariants evaluated on the recorded tree',
+         'Random abstract sites (2-8 entries of every type, 0-2 other-code disassemblies, operands that do/do not address instructions, #R/#LINK/image/audio macros, [Paths] at different depths, AddressAnchor/CodeFiles formats, LinkOperands/LinkInternalOperands, -1 -a -C -D/-H -l/-u -o -O -j -T and -w subsets in one or two runs) rendered to skool+ref files and run through the real skool2html.main; FileInfo-level writes are logged from outside and the output tree tokenised.',
+         'html.parser tokenisation and URL splitting are trusted projections; a link into a class of files deselected with -w is excused; more anchors for one address than documented is a violation, fewer (>=1) is drift.',
+         'DESIGN.md §4 C16'),
+ 'C17': ('model_checking',
+         'TLA+ Macro specification (term AST, integer expression semantics, environment of variables/memory/snapshot stack as a state machine; Expand) model-checked for #PUSHS/#POPS/#POKES/#LET/#FOR histories; TLC evaluates Macro!Expand on every generated term tree and compares with what the real skool2asm and skool2html printed at six places of a skool file',
+         'Random term trees (macro nesting <= 4: #EVAL #N #IF #MAP #FOR #FOREACH #WHILE #LET #FORMAT #DEF #PEEK #POKES #PUSHS #POPS #CHR #STR #SPACE #PC, all arithmetic operators) preceded by state-changing preambles, rendered in randomly chosen documented concrete syntaxes (bare/parenthesised/keyword integers, every delimiter family, pre-expansion, hex/decimal, whitespace), planted in title, description, register, mid-block, instruction and end comments x 9 base/case option sets; ASM = HTML = every place = model.',
+         'html.unescape is trusted; inputs stay in the documented domain (no division by zero, no negative shifts, integer-only format fields); operand values within +-2^20 because TLC integers are 32-bit; image/link macros are C15/C16.',
+         'DESIGN.md §4 C17'),
 }
 
 PENDING = {}
